@@ -8,6 +8,10 @@
 // configuration both endpoints stream 1-4 MiB of different pseudo-random data at the same time.
 // grace.go adds the grace period of bicopy on the clock (period set through the hook
 // martian.VerifSetBicopyGracefulTimeout), judged directly and by the timed machine of Model/C03.lean.
+// legs.go is the capability lattice of what a custom ConnectFunc may return (with / without CloseWrite,
+// found directly / by reflection / failing, io.Pipe pair, net.Pipe, with io.ReaderFrom / io.WriterTo), crossed
+// with every order of half-close; longevity.go keeps tunnels of every configuration alive (idle and
+// trickling) for several times every timeout the proxy, its transport and its dialers have.
 package c03
 
 import (
@@ -98,6 +102,9 @@ func pickSegs(r *core.Rand, size int) []int {
 var orders = []string{"client-first", "target-first", "simultaneous"}
 
 func genCase(r *core.Rand, mode, order string, quick bool) *tunnelCase {
+	if !farEndCanHalfClose(mode) {
+		order = "client-first" // behind net.Pipe the far end finishes by closing: it goes last
+	}
 	tc := &tunnelCase{Kind: "tunnel", Mode: mode, Seed: r.U64(), Order: order}
 	tc.Up1, tc.Down1 = pickSize(r, quick), pickSize(r, quick)
 	second := func() int {
@@ -141,6 +148,18 @@ func genCase(r *core.Rand, mode, order string, quick bool) *tunnelCase {
 		tc.HoldMs = core.Pick(r, []int{0, 0, 1, 5, 20, 50})
 		if !quick && r.Chance(2) {
 			tc.HoldMs = core.Pick(r, []int{1000, 3000}) // a stretch of the grace period: nothing may be closed meanwhile
+		}
+	}
+	// the client half-closes while the far side is still streaming: on a leg the proxy cannot half-close
+	// (no CloseWrite anywhere in what the ConnectFunc returned) the far side cannot wait for the client's
+	// end-of-stream, it is only shown when the tunnel is closed; on the other legs in a quarter of the cases
+	if order == "client-first" && (!legCanHalfClose(mode) || r.Chance(25)) {
+		tc.NoWaitEOF = true
+		if r.Chance(75) {
+			tc.Down2 = r.Range(256<<10, 512<<10)
+		} // else a short second phase: small tunnels are also run on the model (`hrun`) byte for byte
+		if tc.HoldMs < 20 {
+			tc.HoldMs = core.Pick(r, []int{20, 30, 50}) // the proxy has dealt with the client's half-close by then
 		}
 	}
 	// early data
@@ -262,7 +281,17 @@ func Run(ctx *core.Ctx) {
 		"(client first / target first) while the other keeps writing every 50 ms or goes quiet, in sequence and in parallel with staggered starts " +
 		"(cut not before their own first finish + period, and soon after), tunnels both directions of which finish within the period followed by a " +
 		"tunnel on a new connection that outlives the old deadline, tunnels that live for several periods with both directions trickling; each judged " +
-		"directly (sharp lower, generous upper bounds, confirmed by repetition) and by the timed machine (`trun`) on the observed history")
+		"directly (sharp lower, generous upper bounds, confirmed by repetition) and by the timed machine (`trun`) on the observed history. " +
+		"ConnectFunc configurations cover the capability lattice of the returned io.ReadWriteCloser (labels connectfunc-leg/…, far-leg/…): CloseWrite on the " +
+		"value (*tls.Conn, own method), found by reflection (embedded, two named fields down), a CloseWrite that half-closes and returns an error, " +
+		"io.ReaderFrom/io.WriterTo with and without CloseWrite, and NO CloseWrite anywhere (closures, a pair of io.Pipe halves, one end of net.Pipe), also " +
+		"behind a TLS / rate-limited listener and through the http.Handler; each crossed with the three half-close orders; where the proxy cannot half-close " +
+		"the far leg (and in a quarter of the other client-first cases) the far side goes on streaming - three times in four 256-512 KiB - AFTER the client " +
+		"has half-closed, and must lose nothing; the model's acceptor and byte-for-byte run are the machine with leg capabilities (`holds … <legs>`, `hrun`). " +
+		"A third group (grace/longevity/…, grace-mode/lt-…) runs every configuration with EVERY timeout of proxy, transport and dialers at 300-500 ms " +
+		"(ConnectTimeout, DialTimeout, ReadTimeout, ReadHeaderTimeout, WriteTimeout, IdleTimeout, TLS handshake timeouts, ResponseHeaderTimeout, IdleConnTimeout): " +
+		"four tunnels at once live 3-5 times the largest of them, two trickling both ways all the time, two silent for two stretches longer than every " +
+		"timeout with bytes before, between and after; none may be cut, all deliver everything; judged directly and by the timed machine with limits (`ltrun`)")
 	ctx.Assume("the kernel's loopback TCP delivers what is written in order and signals FIN as end-of-stream (the endpoints observe through it)")
 	ctx.Assume("Go's runtime timers do not fire early and time.Now is monotonic within the process (the sharp lower bound of the grace period rests on it)")
 	ctx.Assume("socket closure is observed through forwarder's own connection tracking (conntrack OnClose → listener_cx_active / dialer_cx_active) " +
@@ -327,6 +356,10 @@ func Run(ctx *core.Ctx) {
 	// the grace period on the clock: a phase of its own (the period is a process-wide variable of the proxy)
 	if ctx.NumFindings() < 4 && os.Getenv("VERIF_C03_NO_GRACE") == "" {
 		runGracePhase(ctx, pool, modes)
+	}
+	// established tunnels outlive every request / dial limit (longevity.go)
+	if ctx.NumFindings() < 4 && os.Getenv("VERIF_C03_NO_LONGEVITY") == "" {
+		runLongevityPhase(ctx, pool, modes)
 	}
 	// at the end every environment must be back to zero sockets, and the observation channel itself
 	// must have been alive
@@ -525,6 +558,17 @@ func (e *env) evaluate(ctx *core.Ctx, tc *tunnelCase, obs *tunnelObs) {
 	if obs.Up.AfterEOF > 0 || obs.Down.AfterEOF > 0 {
 		ctx.Count("data-after-peer-eof")
 	}
+	if isConnectFunc(baseMode(tc.Mode)) {
+		ctx.Count("connectfunc-leg/" + strings.TrimPrefix(baseMode(tc.Mode), "cf-") + "/" + tc.Order)
+	}
+	if legCanHalfClose(tc.Mode) {
+		ctx.Count("far-leg/proxy-can-half-close-it")
+	} else {
+		ctx.Count("far-leg/no-closewrite-anywhere/" + tc.Order)
+	}
+	if tc.NoWaitEOF {
+		ctx.Count("client-first/far-side-streams-256KiB+-after-the-client-half-closed")
+	}
 	legs := "legs/a-leg-with-readfrom-or-writeto"
 	if bothLegsBuffered(tc.Mode) {
 		legs = "legs/both-through-the-copy-buffer"
@@ -592,6 +636,17 @@ func (e *env) evaluate(ctx *core.Ctx, tc *tunnelCase, obs *tunnelObs) {
 				fmt.Sprintf("destination read end-of-stream after %d bytes while the source had not half-closed (%d sent, write error %q)", d.Got, d.Sent, d.WriteErr))
 		}
 	}
+	// a far leg the proxy cannot half-close: Model/C03.lean `hstep` shows its far end end-of-stream only when
+	// the tunnel is closed (both directions finished); seen earlier, the leg was closed under the direction
+	// that was still flowing
+	if !legCanHalfClose(tc.Mode) && obs.Up.EOF && obs.Down.Fin && fails == 0 {
+		if obs.Up.eofAt.Before(obs.Down.finAt) {
+			ctx.Disagree("a far leg without CloseWrite is shown end-of-stream only when the tunnel is closed (model: hstep, Cap.none)", tc, impl,
+				fmt.Sprintf("the far end read end-of-stream %v before it half-closed its own side", obs.Down.finAt.Sub(obs.Up.eofAt)))
+			return
+		}
+		ctx.Count("far-leg/no-closewrite-anywhere/end-of-stream-shown-at-tunnel-close")
+	}
 	bothFin := obs.Up.Fin && obs.Down.Fin
 	closedC, closedT := obs.OpenClient <= 0, obs.OpenTarget <= 0
 	if obs.closureErr != "" {
@@ -603,7 +658,7 @@ func (e *env) evaluate(ctx *core.Ctx, tc *tunnelCase, obs *tunnelObs) {
 	}
 
 	// the model's acceptor on what the endpoints observed
-	ans := ctx.Model.MustAsk("C03", "holds", obsField(&obs.Up), obsField(&obs.Down), core.B01(closedC), core.B01(closedT))
+	ans := ctx.Model.MustAsk("C03", "holds", obsField(&obs.Up), obsField(&obs.Down), core.B01(closedC), core.B01(closedT), legsWire(tc.Mode))
 	obs.modelAnswer = ans
 	if ans != "true" {
 		if fails == 0 {
